@@ -124,6 +124,13 @@ def run(e: Engine, rep: Report):
              'issued after the message is complete waits for bytes that '
              'belong to nobody)')
     r510(e, rep)
+    rep.rule('R5.15', 'a position found with find() / rfind() is judged '
+             'against -1: in the DATA reader and sender no result of find '
+             'is tested with `> 0`, `<= 0` or by truth - position 0 is a '
+             'hit (a piece that begins with the line feed of a CR LF cut '
+             'between two reads, a dot line at the very start), and taking '
+             'it for "not found" leaves that line unfinished')
+    r515(e, rep)
     rep.floor('R5.1', 2, 'sentinel tests and rewrite sites')
     rep.floor('R5.3', 5, 'hand-over obligations')
 
@@ -1053,3 +1060,80 @@ def r516(e: Engine, rep: Report, rule: str = 'R5.16'):
                   'the data is missed)' % (what, extra), loc=n.loc(),
                   reason='conditions: inside the data / not EOD / leading '
                   'dot only')
+
+
+# ------------------------------------------------------------------ R5.15
+def r515(e: Engine, rep: Report):
+    mods = ('slimta.smtp.datareader', 'slimta.smtp.datasender')
+    n = 0
+    for f in sorted(e.p.functions.values(), key=lambda f: f.qname):
+        if f.module.name not in mods:
+            continue
+        found = set()
+        for a in walk_own(f.node):
+            if isinstance(a, ast.Assign) and isinstance(a.value, ast.Call) \
+                    and isinstance(a.value.func, ast.Attribute) and \
+                    a.value.func.attr in ('find', 'rfind'):
+                for t in a.targets:
+                    if isinstance(t, ast.Name):
+                        found.add(t.id)
+
+        def num(y):
+            if isinstance(y, ast.UnaryOp) and isinstance(y.op, ast.USub):
+                y = y.operand
+            return isinstance(y, ast.Constant) and \
+                isinstance(y.value, int)
+
+        def is_found(x):
+            return (isinstance(x, ast.Name) and x.id in found) or (
+                isinstance(x, ast.Call) and
+                isinstance(x.func, ast.Attribute) and
+                x.func.attr in ('find', 'rfind'))
+        if not found and not any(is_found(x) for x in walk_own(f.node)):
+            continue
+        rep.functions.add(f.qname)
+        tests = []
+        for x in walk_own(f.node):
+            if isinstance(x, (ast.If, ast.While, ast.IfExp)):
+                tests.append(x.test)
+            elif isinstance(x, ast.BoolOp):
+                tests += x.values
+            elif isinstance(x, ast.UnaryOp) and isinstance(x.op, ast.Not):
+                tests.append(x.operand)
+        for x in walk_own(f.node):
+            bad = None
+            if isinstance(x, ast.Compare) and len(x.ops) == 1:
+                l, r, op = x.left, x.comparators[0], x.ops[0]
+                zero = lambda y: isinstance(y, ast.Constant) and \
+                    y.value == 0 and y.value is not False
+                if is_found(l) and zero(r) and isinstance(
+                        op, (ast.Gt, ast.LtE)):
+                    bad = x
+                elif is_found(r) and zero(l) and isinstance(
+                        op, (ast.Lt, ast.GtE)):
+                    bad = x
+                elif not ((is_found(l) and num(r)) or
+                          (is_found(r) and num(l))):
+                    continue
+            elif is_found(x) and any(x is t for t in tests):
+                bad = x
+            else:
+                continue
+            n += 1
+            rep.evaluations += 1
+            rep.check(bad is None, 'R5.15', f.qname,
+                      '`%s` judges the position against -1'
+                      % ' '.join(ast.unparse(x).split())[:40],
+                      '`%s` takes position 0 for "not found": a piece whose '
+                      'first byte is the searched one (the LF of a CR LF '
+                      'that was cut between two reads, a blank line at the '
+                      'start of a piece) is not cut there - the line is '
+                      'never finished, the end-of-data marker behind it is '
+                      'not seen and the reader waits for bytes the client '
+                      'has already sent'
+                      % ' '.join(ast.unparse(x).split())[:40],
+                      loc=f.loc(x), reason='== -1 / != -1 / >= 0 / < 0')
+    if n < 1:
+        rep.ok('R5.15', 'slimta.smtp.datasender', 'no find() result is '
+               'tested in the DATA reader / sender',
+               reason='nothing to judge', nontrivial=False)
